@@ -469,6 +469,15 @@ class SInt(Sym):
             for _ in range(o):
                 r = r * self.t
             return mk_int(r)
+        h = getattr(theory(), 'sym_pow', None)
+        if h is not None:
+            return h(self, o)
+        raise OutOfSubset('symbolic power')
+
+    def __rpow__(self, o):
+        h = getattr(theory(), 'sym_pow', None)
+        if h is not None:
+            return h(o, self)
         raise OutOfSubset('symbolic power')
 
     def _cmp(self, o, f):
@@ -541,6 +550,18 @@ class SReal(Sym):
     def __abs__(self): return SReal(z3.If(self.t >= 0, self.t, -self.t))
     def __truediv__(self, o): return _divlike(self, o, 'truediv')
     def __rtruediv__(self, o): return _divlike(o, self, 'truediv')
+
+    def __pow__(self, o):
+        h = getattr(theory(), 'sym_pow', None)
+        if h is not None:
+            return h(self, o)
+        raise OutOfSubset('symbolic power')
+
+    def __rpow__(self, o):
+        h = getattr(theory(), 'sym_pow', None)
+        if h is not None:
+            return h(o, self)
+        raise OutOfSubset('symbolic power')
 
     def _cmp(self, o, f):
         if isinstance(o, SV):
@@ -894,8 +915,9 @@ class SV(Sym):
         inst = z3.Or([T.recog['is_' + k](t) for k in T.ctor if k.startswith('C_')])
         if c.branch(inst, 'tag:instance'):
             return self
+        c.assume(z3.Not(T.recog['is_VRef'](t)))      # heap references are never symbolic (only concrete HRefs)
         for k in Theory.BUILTIN:
-            if c.branch(T.recog['is_' + k](t), 'tag:' + k):
+            if k != 'VRef' and c.branch(T.recog['is_' + k](t), 'tag:' + k):
                 return self._typed(k)
         raise PathEnd()
 
